@@ -183,14 +183,26 @@ class M(Model):
     def objective(self, ep):
         if not ep.states:
             return None
-        s, ts = ep.states[-1], ep.timesteps[-1]
+        s = ep.states[-1]
         v = self._view(s)
-        if float(ts.reward) == self.penalty and self.penalty != -1.0:
-            return None  # idle ending: the objective (makespan) is not defined
-        if v["todo"].any() or not v["sched"].any():
+        prev = ep.states[-2] if len(ep.states) >= 2 else ep.s0
+        a = np.asarray(ep.actions[-1]).astype(np.int64).reshape(-1)
+        pv = self._view(prev)
+        if a.shape != (self.Mc,) or (a < 0).any() or (a > self.J).any():
             return None
-        makespan = float((v["st"] + v["dur"])[v["sched"]].max())
-        return -makespan, 1e-6
+        if not self._legal_from_view(pv)[np.arange(self.Mc), a].all():
+            # (the driver's plans may end an episode with an illegal action) documented: -1 per
+            # earlier step, then the penalty
+            return -(float(v["t"]) - 1.0) + self.penalty, 1e-6
+        if self._finished(v):
+            # finished schedule: minus makespan
+            return -float((v["st"] + v["dur"])[v["sched"]].max()), 1e-6
+        if (a == self.noop).all() and not (pv["rem"] > 0).any():
+            # "simultaneously idle" ending: no makespan; the documented return is -1 per elapsed
+            # time step before the last one plus the penalty
+            return -(float(v["t"]) - 1.0) + self.penalty, 1e-6
+        # an all-legal episode has no other documented ending: every step so far should have paid -1
+        return -float(v["t"]), 1e-6
 
     # --------------------------------------------------------------------------------- C09
     def predict(self, s, a):
